@@ -16,6 +16,7 @@ class P(vlib.Prop):
             "a case is trivial only if it has no operations.")
     stages = (
         dict(name="sequences", cmd="c17", args=lambda t, s: []),
+        dict(name="tarentry", cmd="c17", args=lambda t, s: ["-mode", "tarentry"]),
     )
     assumptions = (
         "permission arguments carry no file-type bits (the model keeps kind and permission bits apart)",
